@@ -5,34 +5,76 @@ from .base import StdCheck
 class C02(StdCheck):
     prop = "C02"
     exhaustive = True
-    required_theorems = ["result_step_meets_spec", "fire_step_meets_spec", "model_trace_meets_spec",
-                         "never_while_suppressed", "release_when_clean", "never_two", "immediate_request"]
+    required_theorems = ["result_step_meets_spec", "fire_step_meets_spec", "model_trace_meets_spec_from", "model_trace_meets_spec",
+                         "never_while_suppressed", "never_two", "withheld_event_kept_until_ready",
+                         "release_at_first_ready_firing", "immediate_request",
+                         "handler_result_pair_partial", "handler_result_pair_counterexample"]
     technique = ("Lean 4 proof (simulation relation between property-level bookkeeping and the code's bit masks, induction over "
-                 "operation sequences); correspondence by exhaustive + random differential execution of ProcessCheckResult / "
-                 "FireSuppressedNotifications with real downtimes, acknowledgements, parents and authority changes")
-    level_text = ("Machine-checked theorems that for every configuration and every finite sequence of results and handler runs under "
-                  "arbitrary environments (downtime, acknowledgement, reachability, flapping toggles, pause, notification switch, "
-                  "imminent check, parent recovery) the model's requests satisfy the executable specification of the property "
-                  "(immediate request exactly on hard events, nothing while suppressed or pending, remembered state, release exactly "
-                  "one iff the state differs, never two); the model is tied to the code by running the real functions on all operation "
-                  "sequences of length 4 (5 thorough) over an 11-symbol alphabet x kind x max 1..2 x volatile, plus seeded random "
-                  "interleavings (max 1..4, flapping, two downtimes, ack expiry, timer path via the pump); the same specification "
+                 "operation sequences and over runs of the handler); correspondence by exhaustive + random differential execution of "
+                 "ProcessCheckResult / FireSuppressedNotifications with real downtimes, acknowledgements, parents, authority changes, "
+                 "check intervals and next-check times")
+    level_text = ("Machine-checked theorems that for every configuration, every start state (whatever is withheld and remembered in it) "
+                  "and every finite sequence of results and handler runs under arbitrary environments (downtime, acknowledgement, "
+                  "reachability, flapping toggles, pause, notification switch, active checks on/off, check interval, distance of the next "
+                  "check, parent recovery) the model's requests and its two attributes satisfy the executable specification of the property "
+                  "(immediate request exactly on hard events, nothing while suppressed or pending, the withheld event and the hard state "
+                  "before suppression remembered in suppressed_notifications / state_before_suppression, release exactly one iff the state "
+                  "differs); over any number of consecutive handler runs at most one state notification is requested (never_two), runs at "
+                  "which a release condition fails keep the event (withheld_event_kept_until_ready), and the first run at which all hold "
+                  "releases it (release_at_first_ready_firing). 'Next check imminent' is computed by specification and model from "
+                  "enable_active_checks, check_interval and next_check (IsLikelyToBeCheckedSoon is modelled, its clamp proved equal to "
+                  "min 60 (max 0 (interval-10))), no longer taken from the implementation. The model is tied to the code by running the "
+                  "real functions on all operation sequences of length 4 (5 thorough) over an 11-symbol alphabet x kind x max 1..2 x "
+                  "volatile, a sweep of 21 check intervals x 12 next-check distances x active on/off x 3 withheld situations x kind, "
+                  "seeded random interleavings (max 1..4, flapping, two downtimes, ack expiry, timer path via the pump, 12 check intervals, "
+                  "moved next checks, overwritten attributes as after a restore/cluster sync), and a handler run with a result processed "
+                  "inside its request callback (schedule point between the handler's unlocked read and its write); the same specification "
                   "predicate is evaluated on the implementation's own trace")
-    level_note = ("Trusted: Lean kernel (+ propext, Classical.choice, Quot.sound), harness/driver; the environment facts (IsInDowntime, "
-                  "IsAcknowledged, IsReachable, IsFlapping, IsLikelyToBeCheckedSoon, parent recovery) are oracle inputs read from the "
-                  "implementation (their own correctness is C05/C06/C07). Model transcribes the code after the fix: commits for "
-                  "F-C02a and F-C02b (known_findings.json, status fixed).")
+    level_note = ("Trusted: Lean kernel (+ propext, Classical.choice, Quot.sound), harness/driver; the environment facts IsInDowntime, "
+                  "IsAcknowledged, IsReachable, IsFlapping (the flapping formula is not modelled: the property takes the toggle as given), "
+                  "parent recovery, and the attribute values enable_active_checks / check_interval / next_check are inputs read from the "
+                  "implementation (their own correctness is C04/C05/C06/C07). Model transcribes the code after the fix: commits for "
+                  "F-C02a and F-C02b (known_findings.json, status fixed). F-C02c (known): a result processed between the handler's read "
+                  "(checkable-notification.cpp:143) and write (:237-245) is lost; carried as handler_result_pair_partial + "
+                  "handler_result_pair_counterexample, reproduced on the real code by corpus/C02/f_c02c_result_during_handler.ops.")
     trusted_base = [
-        "modelled, not verified: flapping formula, downtime/ack/reachability predicates (oracle inputs), notification content (C03)",
+        "modelled, not verified: flapping formula, downtime/ack/reachability predicates (environment inputs), notification content (C03)",
         "the harness recomputes 'a parent recovered since the last result' from public getters with the same formula as the code's lambda",
+        "next_check is read from the object (its computation by UpdateNextCheck is C04's); times are integers in microseconds, the "
+        "scheduling offset is fixed per case so that next_check is a function of the operations",
+        "the only schedule point inside FireSuppressedNotifications the harness can reach without a hook is its own notification request "
+        "(a result processed there stands for another thread); a race in a run that requests nothing is not driven",
     ]
-    assumptions = ["integer timestamps", "objects are active; enable_active_checks and check_interval have their defaults"]
+    assumptions = ["integer timestamps", "objects are active; retry_interval has its default"]
     rule = ("exhaustive: every sequence of 4 (thorough: 5) operations over {OK, CRITICAL, WARNING results, fixed downtime add/remove, flexible downtime (triggered by the next non-OK result), acknowledge, "
             "parent down/up, handler after 400 s, handler now} after an initial OK, followed by a fixed tail that ends all suppression reasons, "
             "lets the object settle and runs the handler directly and through the registered timer; x host/service x max 1..2 x volatile; plus "
-            "seeded random interleavings of all ten operation kinds (6000 / 60000 cases of up to 30 / 60 operations). evaluations = results + "
+            "the imminence sweep (check_interval in {0..3600} x next_check distance around 0, interval-10 and 60 s x active checks x withheld "
+            "Problem/Recovery/nothing owed x kind), 48 handler-with-concurrent-result cases, seeded random interleavings of all fourteen "
+            "operation kinds (6000 / 60000 cases of up to 30 / 60 operations) and 1200 / 8000 flapping scenarios. evaluations = results + "
             "handler runs; a case is non-trivial when it requested, withheld, released or dismissed a notification (counted by the Lean driver)")
 
+    def matches_known(self, entry, finding):
+        """F-C02c only: the clause about a handler run with a concurrent result, failing on an FR operation that really was
+        interleaved (the result ran inside the handler's request), whose result was accepted, where exactly one state
+        notification (the handler's) was requested and no state bit is left afterwards. Anything else is reported."""
+        if entry.get("classifier") != "c02_result_between_handler_read_and_write" or finding.kind != "spec":
+            return False
+        if not finding.what.endswith(":handler_and_concurrent_result_as_if_one_after_the_other"):
+            return False
+        frs = [l for l in finding.case_lines if l.startswith("FR ") and " | " in l]
+        if len(frs) != 1:      # the minimised witness has exactly one such operation
+            return False
+        try:
+            groups = [g.split() for g in frs[0].split(" | ", 1)[1].split(" ; ")]
+            inter, accepted = groups[2][0], groups[2][1]
+            sup = int(groups[4][0])
+            notifs = [] if groups[5][0] == "-" else groups[5][0].split(",")
+        except (IndexError, ValueError):
+            return False
+        state_notifs = [x for x in notifs if x.split(":")[0] in ("32", "64")]
+        return (inter == "1" and accepted == "1" and (sup & 96) == 0 and len(state_notifs) == 1
+                and notifs[0] == state_notifs[0])
 
 
 # Behaviour-preserving rewrites the check was run against (patches under corpus/C01|C02/negative_controls/; documentation only).
